@@ -4,7 +4,7 @@ import abc
 import inspect
 import logging
 import threading
-from dataclasses import dataclass, field, FrozenInstanceError
+from dataclasses import dataclass, field, fields, is_dataclass, FrozenInstanceError
 from functools import lru_cache
 from typing import _GenericAlias
 
@@ -694,10 +694,12 @@ class DataAccessObject(HasGeneric[T]):
         mapper: sqlalchemy.orm.Mapper = sqlalchemy.inspection.inspect(type(self))
 
         argument_names = self._argument_names()
-        kwargs = self._collect_scalar_kwargs(mapper, argument_names)
+        # dataclass fields that are no constructor arguments (init=False) are assigned after construction
+        field_names = argument_names + self._names_of_fields_outside_init()
+        kwargs = self._collect_scalar_kwargs(mapper, field_names)
 
         rel_kwargs, circular_refs = self._collect_relationship_kwargs(
-            mapper, argument_names, state
+            mapper, field_names, state
         )
         kwargs.update(rel_kwargs)
 
@@ -705,8 +707,14 @@ class DataAccessObject(HasGeneric[T]):
             argument_names, state
         )
 
-        init_args = {**base_kwargs, **kwargs}
+        init_args = {
+            **base_kwargs,
+            **{key: value for key, value in kwargs.items() if key in argument_names},
+        }
         self._call_initializer_or_assign(result, init_args)
+        for key, value in kwargs.items():
+            if key not in argument_names:
+                state._assign(result, key, value)
 
         self._apply_circular_fixes(result, circular_refs, state)
 
@@ -732,6 +740,15 @@ class DataAccessObject(HasGeneric[T]):
             p.name
             for p in inspect.signature(init_of_original_class).parameters.values()
         ][1:]
+
+    def _names_of_fields_outside_init(self) -> List[str]:
+        """
+        :return: The names of the dataclass fields of the original class that are not constructor arguments.
+        """
+        original_class = self.original_class()
+        if not is_dataclass(original_class):
+            return []
+        return [f.name for f in fields(original_class) if not f.init]
 
     def _collect_scalar_kwargs(
         self, mapper: sqlalchemy.orm.Mapper, argument_names: List[str]
